@@ -106,6 +106,16 @@ What the misses had in common, and what was done about the pattern rather than t
   (C17-q); a context bound by a scope in front of FindInBatches (C18-q); ToSQL on a handle with a context, a Create
   that enters with its statement filled (C19-q/r); blanks in the tags a join table inherits, scopes that register
   scopes in front of AutoMigrate (C20-q/r); Row() on a cached statement of another transaction (C14-q/r).
+* **Round 9** (one change per property, written in the last two hours): a select list with arguments under Pluck
+  (C01-s); nested scopes in front of FindInBatches (C02-s); a column named like another field's Go name (C03-s);
+  Row() on a statement cached outside the transaction (C04-s); a hook failing with gorm.ErrRecordNotFound (C05-s);
+  a soft-delete join model in front of a soft-delete target read through Association() (C08-s); a pointer to an
+  empty slice as the only condition (C09-s); Or-joined conditions of an update on a soft-delete model (C10-s); an Or
+  in a Preload scope (C11-s); a kept association handle whose Unscoped() variant was derived earlier (C12-s); one
+  belongs-to record held by several elements of a slice argument (C13-s); Pluck behind a Select of several columns
+  (C15-s); a one-element list in a map condition of FirstOrInit / FirstOrCreate (C16-s); a Connection block under an
+  ended context (C18-s); the dry run of a write gorm refuses for lack of a condition (C19-s); the check tag of a
+  shadowed embedded field (C20-s)ROUND9_EXTRA.
 * **Rounds 4 and 5, same five patterns, further out.** Second use: a handle derived from a chain that
   stays in use (C06-k), FindInBatches run from a handle (C06-j), a second Raw on a chain value, a handle per
   goroutine (C07-j), a record reachable twice in one Create (C13-h). Error paths: zero-row statements whose
@@ -168,7 +178,9 @@ pointers and OR next to a quote or comment (C02), a handle with an empty WHERE c
 the Connection block (C06 / C04 / C14), joins left behind by Scan / Rows / Row (C06), `DO NOTHING WHERE` (C10),
 Unscoped belongs-to Clear (C08), settings a join table takes over from its key fields (C20), FirstOrCreate+Assign on an Or
 chain (C16), the model's key under a deleted value given by value (C02), nil elements of a pointer array under hooks (C13), the
-statement map read without its lock (C14); plus KF-C05-1 and KF-C17-19..22. One more change was retired through such a repair (C16-r).
+statement map read without its lock (C14); plus KF-C05-1 and KF-C17-19..22. One more change was retired through such a repair (C16-r). Round 9 (defects 102, 103): an Or in a Preload
+scope function (C11; the change that led to it, C11-s, was retired through the repair) and statements under an ended context inside a
+Connection block (KF-C18-1) - both surfaced the moment the workload for a seeded change was added, before the change itself was tried.
 ''')
 p = '/verif/DESIGN.md'
 s = open(p).read()
